@@ -9,7 +9,7 @@ the original is and that parses to the same syntax tree".
 
 At token level: `strip ts` removes the WS and COMMENT tokens and forgets everything the parser
 cannot observe (offsets; the lexeme of every token except IDENTIFIER, NUMBER, STRING, REGEXP — so
-also the spelling / letter case of keywords).  `Grammar.parse` (`Vore/Spec/Grammar.lean`) is a
+also the spelling / letter case of keywords).  `Grammar.parse` (`Vore/Spec/ParserGrammar.lean`) is a
 second, index-free parser written directly over the stripped list; it never skips anything.
 
 `C15_parser`: the real parser's model, which has to remember to call `consumeIgnoreableTokens` at
